@@ -8,12 +8,15 @@ LEVEL = "fault_enumeration"
 RULE = ("fault injection at gpyreg.GP.fit entry (LinAlgError at chosen invocation indices, counted on the faulted run itself): an "
         "unfaulted reference run gives the number F of fit invocations (initial training + every local refit attempt); plans: a single "
         "fault at each k in 0..F-1 (quick: a seeded subset), runs of 2, 3, 4 consecutive faults starting at each k, scattered sets of "
-        "2-4 indices (the statement's quantifier; a WHOLE refit failing = 10 consecutive faults is outside it and not injected); modes det / auto / declared / he (noise vector present) x "
+        "2-4 indices (the statement's quantifier; a WHOLE refit failing = 10 consecutive faults is outside it and not injected); plus "
+        "LinAlgError in the POSTERIOR RECOMPUTATION that ends a local fit (the listed 'fallback to previous hyper-parameters' mechanism) "
+        "early/middle/late in the run, single and 3 consecutive; modes det / auto / declared / he (noise vector present) x "
         "geometries. Oracle: optimize() returns, and on that faulted run the run-level monitors of C01 (bounds), C03 (budget, count, "
         "message) and C04/C05 (truthful result) all hold. distinct_nontrivial = distinct (mode, plan shape, fit kind initial|local) "
         "cells in which a fault was actually DELIVERED (measured), weighted by distinct k")
 RUN_KW = {"quick": dict(timeout_case=900, wall_cap=1200), "thorough": dict(timeout_case=3200, wall_cap=3400)}
-ASSUMPTIONS = ["only hyper-parameter *fits* are faulted (the statement); GP.update failures are outside it"]
+ASSUMPTIONS = ["faults are injected at GP.fit and at the posterior recomputation inside local_gp_fitting (both listed mechanisms); GP.update calls "
+               "elsewhere (incremental add of a point) have no handler and are outside the statement"]
 
 
 def cases(tier, seed):
@@ -52,15 +55,30 @@ def run_case(case):
     for _ in range(max(1, case["nplans"] // 4)):
         plans.append(("scattered", sorted(set(int(x) for x in rs.randint(0, F + 3, size=rs.randint(2, 5))))))
     plans = plans[: case["nplans"]]
+    # the listed 'posterior update fallback' mechanism: LinAlgError in the posterior recomputation at the end of a
+    # local fit (early, middle, late in the run; single and 2-3 consecutive)
+    U = ref.gp_update_idx
+    uplans = []
+    for frac in (0.02, 0.3, 0.6, 0.9):
+        k = int(frac * max(1, U - 1))
+        uplans.append(("update-single", [k]))
+    k = int(rs.randint(0, max(1, U)))
+    uplans.append(("update-run3", [k, k + 1, k + 2]))
+    uplans = uplans[: max(2, case["nplans"] // 2)]
     viol = {}
     cells = {}
     delivered_runs = 0
     faults_delivered = 0
     mode = spec["noise"]["mode"]
-    for shape, idx in plans:
-        m = RunMonitor(spec, oracles={"C01", "C03", "C04", "C05"}, gp_fault=idx)
-        rec = m.run()
-        dl = [f for f in m.gp_fits if f["faulted"]]
+    for shape, idx in plans + uplans:
+        if shape.startswith("update"):
+            m = RunMonitor(spec, oracles={"C01", "C03", "C04", "C05"}, gp_update_fault=idx)
+            rec = m.run()
+            dl = [{"i": i, "kind": "posterior-update", "faulted": True} for i in idx][: m.gp_updates_faulted]
+        else:
+            m = RunMonitor(spec, oracles={"C01", "C03", "C04", "C05"}, gp_fault=idx)
+            rec = m.run()
+            dl = [f for f in m.gp_fits if f["faulted"]]
         if not dl:
             continue
         delivered_runs += 1
